@@ -1088,6 +1088,8 @@ class Interp:
             bkey = body.name.split("::")[-1]
             if bkey in self.stubs:
                 return self.stubs[bkey](self, st, args, callee)
+            if selfty and ("%s::%s" % (selfty, bkey)) in self.stubs:
+                return self.stubs["%s::%s" % (selfty, bkey)](self, st, args, callee)
             return [(None, ("call", body, args, None, selfty))]
         h = self.models.get(key)
         if h is None:
